@@ -266,6 +266,10 @@ pub fn run(ctx: &Ctx, rep: &mut Report) {
             let affordable = amount <= have;
             let expect_ok: Option<bool> = if !authorised || refused_by_token {
                 Some(false)
+            } else if !inbound && receiver == gs {
+                // paying out to the service itself moves nothing; the statement does not say whether
+                // such a request is served (net zero) or refused
+                None
             } else if op == "refund" {
                 if amount > 0 {
                     Some(affordable)
